@@ -3,6 +3,7 @@ package cli
 import (
 	"errors"
 	"io"
+	"os"
 	"strings"
 
 	"github.com/itchyny/gojq"
@@ -282,5 +283,118 @@ func H_C16_files() {
 		}
 		vreach("inputs")
 	}
+	vreach("end")
+}
+
+// H_C16_modes: the real createInputIter over every combination of -R / -s / --stream, with
+// files that exist, are empty, are malformed or are missing, and "-" for stdin. Never
+// panics, always ends; without -s the values are the concatenation of what each file
+// yields on its own; with -s there is one value (the array of all values, or with -R the
+// concatenation of all texts) unless something fails, in which case the error is
+// delivered and the input ends.
+func H_C16_modes() {
+	texts := []string{"1 2", "[3]\n", "", "{\"a\":4}\n5", "6 x 7", "line1\nline2", "\"s\""}
+	raw, slurp, stream := nondetBool(), nondetBool(), nondetBool()
+	if raw && stream {
+		return // -R wins in createInputIter; the combination adds nothing
+	}
+	dir := ""
+	if vnative() {
+		d, err := os.MkdirTemp("", "c16")
+		if err != nil {
+			return
+		}
+		defer os.RemoveAll(d)
+		dir = d + "/"
+	}
+	c16files = map[string]string{}
+	var args []string
+	var parts []string // per argument: the text, or "\x00missing"
+	stdin := texts[nondetChoice(len(texts))]
+	n := 1 + nondetChoice(3)
+	for i := 0; i < n; i++ {
+		switch k := nondetChoice(len(texts) + 2); {
+		case k == len(texts):
+			args = append(args, dir+"missing"+string(rune('0'+i)))
+			parts = append(parts, "\x00missing")
+		case k == len(texts)+1:
+			args = append(args, "-")
+			parts = append(parts, stdin)
+			stdin = "" // a second "-" reads the exhausted stdin
+		default:
+			name := dir + "f" + string(rune('0'+i))
+			c16files[name] = texts[k]
+			if vnative() {
+				os.WriteFile(name, []byte(texts[k]), 0o600)
+			}
+			args = append(args, name)
+			parts = append(parts, texts[k])
+		}
+	}
+	vlabel("args", strings.Join(args, " "))
+	newIter := newJSONInputIter
+	switch {
+	case raw && slurp:
+		newIter = newReadAllIter
+	case raw:
+		newIter = newRawInputIter
+	case stream:
+		newIter = newStreamInputIter
+	}
+	// reference: each argument on its own
+	var want []any
+	failed := false
+	allText := ""
+	for _, p := range parts {
+		if p == "\x00missing" {
+			want = append(want, "<error>")
+			failed = true
+			continue
+		}
+		allText += p
+		vs, ne, _ := c16Collect(newIter(strings.NewReader(p), "f"), 40)
+		want = append(want, vs...)
+		if ne > 0 {
+			failed = true
+		}
+	}
+	stdinText := ""
+	for i, a := range args {
+		if a == "-" {
+			stdinText = parts[i]
+			break
+		}
+	}
+	c := &cli{inStream: strings.NewReader(stdinText), inputRaw: raw, inputSlurp: slurp, inputStream: stream}
+	it := c.createInputIter(args)
+	got, nerr, ended := c16Collect(it, 60)
+	vassert(ended, "the input ends")
+	if !slurp {
+		vassert(len(got) == len(want), "every file and stdin contributes exactly what it yields on its own")
+		if len(got) == len(want) {
+			for i := range got {
+				vassert(c16Equal(got[i], want[i]), "values arrive in argument order")
+			}
+		}
+		vreach("plain")
+	} else if failed {
+		vassert(len(got) >= 1 && got[0] == "<error>" && nerr == 1, "with -s a failing input delivers the error first, once")
+		vreach("slurp-failed")
+	} else {
+		vassert(len(got) == 1, "with -s there is exactly one value")
+		if len(got) == 1 {
+			if raw {
+				vassert(got[0] == allText, "-Rs yields the concatenation of all texts")
+			} else if len(want) == 0 {
+				vassert(got[0] == nil || c16Equal(got[0], []any{}), "-s on empty input is an empty array")
+			} else {
+				vassert(c16Equal(got[0], want), "-s yields the array of all values")
+			}
+		}
+		vreach("slurp")
+	}
+	it.Close()
+	_, ok := it.Next()
+	vassert(!ok, "a closed input yields nothing more")
 	vreach("end")
 }
